@@ -711,7 +711,9 @@ func init() {
 			"history depth 3 over the stated operation menu (≈400 instantiated calls) from 5 seed states",
 			"raw SetBitsExp is used within its contract (fresh slices or the receiver's own BitsExp slice)",
 		},
-		Layers: func(tier string) []Layer { return histLayers(judgeCanonical, tier, "canonical form (C08)") },
+		Layers: func(tier string) []Layer {
+			return append(histLayers(judgeCanonical, tier, "canonical form (C08)"), canonicalAfterParseLayer(tier))
+		},
 		Stats:  histStats("C08"),
 	})
 	register(&Property{
@@ -732,7 +734,7 @@ func init() {
 					ls = append(ls, l)
 				}
 			}
-			for _, l := range arithLayers(judgeAttr, tier) {
+			for _, l := range arithLayers(judgeAttr, "quick") { // the attribute judge does not need the thorough operand sets
 				if !strings.HasPrefix(l.Name, "L1-") {
 					ls = append(ls, l)
 				}
